@@ -124,6 +124,8 @@ def verify_functions(run, contracts, registry, concretes=None, tier='quick', bot
         if not res.obligations:
             run.undecided('%s.vacuous' % c.funcname, 'E1/pyvc', 'no obligations generated')
         for (name, status, solver, ms, detail, n) in res.obligations:
+            if c.notes:
+                name = name.replace(c.funcname, '%s{%s}' % (c.funcname, c.notes), 1)
             if status == 'unsat':
                 run.discharged(name, 'E1/pyvc', solver, ms)
             elif status == 'unknown':
